@@ -97,10 +97,4 @@ def run(tier):
 
 
 def replay(path):
-    import json
-    r = json.load(open(path))
-    inp = r['input']
-    C = Check('C02', 'quick')
-    runner = GenRunner(C.scratch, workers=1)
-    print("replay: re-run `./bin/check C02 quick`; the replay file holds the specification XML, the object and observed/expected bytes")
-    return 0
+    return gen_replay(path)
